@@ -24,6 +24,12 @@ pub fn edge_scalars() -> Vec<BigUint> {
         BigUint::one() << 64,
         (BigUint::one() << 128) - 1u32,
         BigUint::one() << 255,
+        // carry chains
+        r9::hexn("0000000000000000FFFFFFFFFFFFFFFFFFFFFFFFFFFFFFFF0000000000000000"),
+        (BigUint::one() << 192) - 1u32,
+        r9::hexn("00000000000000010000000000000000FFFFFFFFFFFFFFFF0000000000000000"),
+        r9::hexn("7FFFFFFFFFFFFFFFFFFFFFFFFFFFFFFFFFFFFFFFFFFFFFFFFFFFFFFFFFFFFFFFFF"),
+        n - (BigUint::one() << 128),
     ]
     .into_iter()
     .filter(|k| k < &(n - 1u32))
@@ -170,6 +176,83 @@ pub fn ladder_values(m: &BigUint, p: &mut Prng) -> Vec<(String, BigUint)> {
         }
         if ok {
             out.push((pat, r9::from_limbs(&v)));
+        }
+    }
+    out
+}
+
+/// Valid G1 points crafted so that the addition `x^3 + 5` of the on-curve test, in the library's stored (Montgomery)
+/// representation, lands on a reduction or carry boundary (same idea as sm2x::crafted_points).
+pub fn crafted_g1_points(p: &mut Prng, per_class: usize, shard: u64, shards: u64) -> Vec<(String, (BigUint, BigUint))> {
+    let pr = r9::params();
+    let two256: BigUint = BigUint::one() << 256;
+    let cl = r9::to_mont(&BigUint::from(5u32));
+    let cb = r9::from_limbs(&cl);
+    let width = &two256 - &pr.p;
+    let mut pats: Vec<(String, Box<dyn Fn(u64, &mut Prng) -> Option<BigUint>>)> = vec![];
+    {
+        let (cb1, pp, w) = (cb.clone(), pr.p.clone(), width.clone());
+        pats.push(("x^3+5:stored_sum_in_[p,2^256)".into(), Box::new(move |_, q| {
+            let lim = if cb1 < w { cb1.clone() } else { w.clone() };
+            let t = BigUint::from_bytes_be(&q.bytes(40)) % &lim;
+            Some(&pp - &cb1 + t)
+        })));
+        let (cb1, pp) = (cb.clone(), pr.p.clone());
+        pats.push(("x^3+5:stored_sum=p+j".into(), Box::new(move |j, _| Some(&pp - &cb1 + j))));
+        let (cb1, pp) = (cb.clone(), pr.p.clone());
+        pats.push(("x^3+5:stored_sum=p-1-j".into(), Box::new(move |j, _| Some(&pp - 1u32 - j - &cb1))));
+        let (cb1, t) = (cb.clone(), two256.clone());
+        pats.push(("x^3+5:stored_sum=2^256-1-j".into(), Box::new(move |j, _| Some(&t - 1u32 - j - &cb1))));
+        let (cb1, t) = (cb.clone(), two256.clone());
+        pats.push(("x^3+5:stored_sum=2^256+j".into(), Box::new(move |j, _| Some(&t + j - &cb1))));
+    }
+    for i in 1..4usize {
+        for run in 1..=(4 - i) {
+            let Some(k) = (0..i).rev().find(|&k| cl[k] != 0) else { continue };
+            for (mode, fname) in [(0u8, "sum_all_ones"), (1, "operand_all_ones"), (2, "operand_zero")] {
+                pats.push((format!("x^3+5:limbs{}..{}_{}_carry_in", i, i + run - 1, fname), Box::new(move |_, q| {
+                    let mut v = q.limbs();
+                    for j in (k + 1)..i {
+                        v[j] = !cl[j];
+                    }
+                    for j in i..(i + run) {
+                        v[j] = match mode {
+                            0 => !cl[j],
+                            1 => u64::MAX,
+                            _ => 0,
+                        };
+                    }
+                    v[k] = 0u64.wrapping_sub(cl[k]).wrapping_add(q.below(cl[k]));
+                    if i + run == 3 {
+                        v[3] %= 0xB640_0000_02A3_A6F1;
+                    }
+                    Some(r9::from_limbs(&v))
+                })));
+            }
+        }
+    }
+    let mut out = vec![];
+    let mut class_idx = 0u64;
+    for (name, f) in pats {
+        class_idx += 1;
+        let sub = p.next();
+        if class_idx % shards != shard % shards {
+            continue;
+        }
+        let q = &mut Prng::new(sub, "cls");
+        let mut found = 0;
+        for j in 0..160u64 {
+            let Some(v) = f(j, q) else { continue };
+            if v >= pr.p {
+                continue;
+            }
+            if let Some(pt) = r9::g1_point_with_mont_x3(&r9::to_limbs(&v)) {
+                out.push((name.clone(), pt));
+                found += 1;
+                if found >= per_class {
+                    break;
+                }
+            }
         }
     }
     out
